@@ -840,3 +840,16 @@ package main
 // ---- C10 / C19: whatever key file is submitted, the X.509 issuing path does not panic ---------------------------
 //@ func (*RuntimeState).postAuthX509CertHandler
 //@   nopanic kinds typeassert nilresult index slice divzero @C10,C19
+// ... nor do the other issuing paths (type assertions, dereferences of call results, indexing, slicing, division)
+//@ func (*RuntimeState).postAuthSSHCertHandler
+//@   nopanic kinds typeassert nilresult index slice divzero @C10
+//@ func (*RuntimeState).parseRoleCertGenParams
+//@   nopanic kinds typeassert nilresult index slice divzero @C10
+//@ func (*RuntimeState).parseRefreshRoleCertGenParams
+//@   nopanic kinds typeassert nilresult index slice divzero @C10
+//@ func (*RuntimeState).generateRoleCert
+// (reached only through the cloud-role handler, which is behind the sealed-server gate)
+//@   requires state.Signer != nil
+//@   nopanic kinds typeassert nilresult index slice divzero @C10
+//@ func (*RuntimeState).withParamsGenerateRoleRequestingCert
+//@   nopanic kinds typeassert nilresult index slice divzero @C10
